@@ -54,7 +54,7 @@ var acceptGates = []GateSpec{
 		MustCall: [][]string{{symPoolAdd, symVerifyPool}},
 	},
 	{
-		ID: "addHeaders.verify-loop", Fn: [3]string{"pkg/core", "Blockchain", "addHeaders"}, LoopOver: "param:headers", Target: "loop-next",
+		ID: "addHeaders.verify-loop", Fn: [3]string{"pkg/core", "Blockchain", "addHeaders"}, LoopOver: "param#1", Target: "loop-next",
 		Guards:   []Guard{{ID: "verifyHeader", Doc: "each header is verified against its predecessor and a failure leaves", Alts: [][]string{{symBC + "verifyHeader"}}}},
 		MustCall: [][]string{{symBC + "verifyHeader"}},
 	},
@@ -62,7 +62,7 @@ var acceptGates = []GateSpec{
 		ID: "verifyHeader.ok", Fn: [3]string{"pkg/core", "Blockchain", "verifyHeader"}, Target: "ok-return",
 		Guards: []Guard{
 			{ID: "prev-hash", Doc: "previous hash links to the previous header", Alts: [][]string{{"pkg/core/block#PrevHash", symHeaderHash}}},
-			{ID: "index", Doc: "index is previous index + 1", Alts: [][]string{{fldBlockIndex, "param:prevHeader", "param:currHeader"}}},
+			{ID: "index", Doc: "index is previous index + 1", Alts: [][]string{{fldBlockIndex, "param#1", "param#0"}}},
 			{ID: "timestamp", Doc: "timestamp strictly increases", Alts: [][]string{{"pkg/core/block#Timestamp"}}},
 		},
 		MustCall: [][]string{{symBC + "verifyHeaderWitnesses"}},
@@ -82,8 +82,8 @@ func ruleAcceptDominators(c *Ctx) {
 	argMentions(c, "AddBlock.addHeaders.verify-arg", [3]string{"pkg/core", "Blockchain", "AddBlock"}, symBC+"addHeaders", 0, cfgSkipVerify)
 	argMentions(c, "AddHeaders.addHeaders.verify-arg", [3]string{"pkg/core", "Blockchain", "AddHeaders"}, symBC+"addHeaders", 0, cfgSkipVerify)
 	// header witnesses are checked against the consensus address designated by the previous header
-	argMentions(c, "verifyHeaderWitnesses.next-consensus", [3]string{"pkg/core", "Blockchain", "verifyHeaderWitnesses"}, symBC+"VerifyWitness", 0, "pkg/core/block#NextConsensus", "param:prevHeader")
-	argMentions(c, "verifyHeaderWitnesses.script", [3]string{"pkg/core", "Blockchain", "verifyHeaderWitnesses"}, symBC+"VerifyWitness", 2, "pkg/core/block#Script", "param:currHeader")
+	argMentions(c, "verifyHeaderWitnesses.next-consensus", [3]string{"pkg/core", "Blockchain", "verifyHeaderWitnesses"}, symBC+"VerifyWitness", 0, "pkg/core/block#NextConsensus", "param#1")
+	argMentions(c, "verifyHeaderWitnesses.script", [3]string{"pkg/core", "Blockchain", "verifyHeaderWitnesses"}, symBC+"VerifyWitness", 2, "pkg/core/block#Script", "param#0")
 	c.Floor("guards", len(c.Obls), 14)
 }
 
@@ -103,7 +103,7 @@ var admitGates = []GateSpec{
 	},
 	{
 		ID: "verifyAndPoolTx.Add.complete-tx", Fn: [3]string{"pkg/core", "Blockchain", "verifyAndPoolTx"}, Target: "call:" + symPoolAdd,
-		Assume: symAssume("local:isPartialTx", false),
+		Assume: symAssume("local<-param#3", false),
 		Guards: []Guard{{ID: "vub-window", Doc: "ValidUntilBlock is not further than the allowed increment", Alts: [][]string{{fldTxVUB, symBlockHeight, symBC + "GetMaxValidUntilBlockIncrement"}}}},
 	},
 	{
@@ -129,7 +129,7 @@ func ruleAdmitDominators(c *Ctx) {
 		f := c.P.NewFuncCFG(fd)
 		var loops []Loop
 		for _, l := range f.Loops() {
-			if l.X != nil && f.Mentions(l.X, nil)["param:signers"] {
+			if l.X != nil && f.Mentions(l.X, nil)["param#1"] {
 				loops = append(loops, l)
 			}
 		}
